@@ -652,3 +652,60 @@ func RuleKPartDates(c *core.Ctx) {
 	}
 	c.Floor(rule, 2)
 }
+
+// RuleKUTC — all dates live in one time zone. Journal dates come from
+// time.Parse (UTC) and date.Date (UTC midnight); window bounds, period
+// boundaries and the keys of the reports are compared with them by
+// Before/After/Equal and used as map keys, so a date constructed in another
+// zone is a different instant with the same calendar day: bookings on a
+// window's last day fall out of it and days are attributed to the neighbouring
+// period. Every time.Date call of the module passes time.UTC and no
+// time.ParseInLocation call passes a location other than time.UTC.
+func RuleKUTC(c *core.Ctx) {
+	const rule = "K-utc"
+	p := c.P
+	isUTC := func(v ssa.Value) bool {
+		ld, ok := v.(*ssa.UnOp)
+		if !ok || ld.Op != token.MUL {
+			return false
+		}
+		g, ok := ld.X.(*ssa.Global)
+		return ok && g.Pkg != nil && g.Pkg.Pkg.Path() == "time" && g.Name() == "UTC"
+	}
+	n := 0
+	for _, fn := range p.SrcFuncs() {
+		if !p.InModule(fn) {
+			continue
+		}
+		core.EachInstr(fn, func(ins ssa.Instruction) {
+			call, ok := ins.(*ssa.Call)
+			if !ok {
+				return
+			}
+			callee := call.Call.StaticCallee()
+			if callee == nil || callee.Pkg == nil || callee.Pkg.Pkg.Path() != "time" {
+				return
+			}
+			var loc ssa.Value
+			switch callee.Name() {
+			case "Date":
+				if callee.Signature.Recv() != nil {
+					return // (Time).Date()
+				}
+				loc = call.Call.Args[len(call.Call.Args)-1]
+			case "ParseInLocation":
+				loc = call.Call.Args[len(call.Call.Args)-1]
+			default:
+				return
+			}
+			n++
+			key := fmt.Sprintf("%s:time.%s in UTC", core.FuncName(fn), callee.Name())
+			if isUTC(loc) {
+				c.Ob(rule, key, call.Pos(), core.FuncName(fn), core.Discharged, "location is time.UTC")
+			} else {
+				c.Ob(rule, key, call.Pos(), core.FuncName(fn), core.Violated, "a date is constructed in the location "+describeValue(p, loc)+" while journal dates and period boundaries are UTC midnights: the same calendar day is a different instant, so comparisons with window bounds and period ends are off by the zone offset")
+			}
+		})
+	}
+	c.Floor(rule, 1)
+}
